@@ -382,6 +382,8 @@ def ends_rule(repo, res, rule="ENDS"):
 
 
 def run(repo, res, tier):
+    from . import c15
+    c15.book_rules(repo, res)  # which span is stored for `Unused` / `Unused specialization` / `Undefined` (the warning's place)
     from . import c11
     c11.dom_get_specializations(repo, res)  # FF: every shell's arm records UserSpec.span <= the definition's lhs_span (`Unused specialization` / `Previous definition` point there)
     from . import c06
